@@ -23,6 +23,48 @@ class OutOfFragment(AnalysisError):
 OPAQUE_DIV = [False]
 
 # ----------------------------------------------------------------- polynomials
+_ORD = {}
+
+def _ord(name):
+    """Process-wide interned rank of a symbol name (canonical monomial order)."""
+    r = _ORD.get(name)
+    if r is None:
+        r = _ORD[name] = len(_ORD)
+    return r
+
+class Atom:
+    """Interned name of an uninterpreted / boolean atom: identity equality, cached hash."""
+    __slots__ = ('key', 'kind', 'h')
+    def __init__(self, key):
+        self.key, self.kind, self.h = key, key[0], hash(key)
+    def __hash__(self):
+        return self.h
+    def __eq__(self, o):
+        return self is o
+    def __ne__(self, o):
+        return self is not o
+    def __getitem__(self, i):
+        return self.key[i]
+    def __len__(self):
+        return len(self.key)
+    def __iter__(self):
+        return iter(self.key)
+    def __repr__(self):
+        return repr(self.key)
+
+ATOM_TABLE = {}
+
+def intern_atom(key):
+    if isinstance(key, Atom):
+        return key
+    a = ATOM_TABLE.get(key)
+    if a is None:
+        a = ATOM_TABLE[key] = Atom(key)
+    return a
+
+def _is_bool_name(n):
+    return isinstance(n, Atom) and n.kind == 'bool'
+
 class Poly:
     __slots__ = ('t',)
     def __init__(self, t=None):
@@ -32,6 +74,8 @@ class Poly:
         return Poly({(): Fraction(c)})
     @staticmethod
     def sym(name):
+        if isinstance(name, tuple):
+            name = intern_atom(name)
         return Poly({((name, 1),): Fraction(1)})
     def is_const(self):
         return all(k == () for k in self.t)
@@ -50,11 +94,16 @@ class Poly:
         t = {}
         for k1, v1 in self.t.items():
             for k2, v2 in o.t.items():
-                d = dict(k1)
-                for n, e in k2:
-                    d[n] = d.get(n, 0) + e
-                # idempotent boolean atoms
-                k = tuple(sorted(((n, 1 if isinstance(n, tuple) and n and n[0] == 'bool' else e) for n, e in d.items()), key=repr))
+                if not k1:
+                    k = k2
+                elif not k2:
+                    k = k1
+                else:
+                    d = dict(k1)
+                    for n, e in k2:
+                        d[n] = d.get(n, 0) + e
+                    # idempotent boolean atoms
+                    k = tuple(sorted(((n, 1 if _is_bool_name(n) else e) for n, e in d.items()), key=lambda x: _ord(x[0])))
                 t[k] = t.get(k, 0) + v1 * v2
         return Poly(t)
     def __eq__(self, o):
@@ -62,7 +111,7 @@ class Poly:
     def __hash__(self):
         return hash(frozenset(self.t.items()))
     def key(self):
-        return tuple(sorted(self.t.items(), key=repr))
+        return tuple(sorted(self.t.items(), key=lambda kv: tuple((_ord(n), e) for n, e in kv[0])))
     def __repr__(self):
         if not self.t:
             return '0'
@@ -161,11 +210,13 @@ class Rat:
         if self.is_const() and o.is_const():
             a, b = self.constval(), o.constval()
             return {'<': a < b, '<=': a <= b, '>': a > b, '>=': a >= b, '==': a == b, '!=': a != b}[op]
-        # normalise a>b to b<a, a>=b to b<=a
+        # canonical atoms are '<' and '==': a>b = b<a, a<=b = not(b<a), a>=b = not(a<b)
         if op == '>':
             return o._cmp('<', self)
         if op == '>=':
-            return o._cmp('<=', self)
+            return Rat.lift(1) - self._cmp('<', o)
+        if op == '<=':
+            return Rat.lift(1) - o._cmp('<', self)
         k = atom_key('bool', (op, self, o), (op, self.key(), o.key()))
         return Rat(Poly.sym(k))
     def __lt__(self, o): return self._cmp('<', o)
@@ -206,10 +257,14 @@ def keyof(v):
 # already created with the same operator.
 ATOMS = {}
 ATOM_INDEX = set()
+ATOM_ARGS = {}     # atom key -> (operator name, argument values) for substitution inside atoms
 
 def reset_atoms():
     ATOMS.clear()
     ATOM_INDEX.clear()
+    ATOM_ARGS.clear()
+    ATOM_TABLE.clear()
+    _ORD.clear()
 
 def _noncanon(a):
     if isinstance(a, Rat):
@@ -231,16 +286,19 @@ def _val_same(a, b):
 def atom_key(name, args, keys=None):
     keys = keys if keys is not None else tuple(keyof(a) for a in args)
     k = (name,) + keys
-    if k in ATOM_INDEX:
-        return k
+    a = ATOM_TABLE.get(k)
+    if a is not None and a in ATOM_INDEX:
+        return a
     slot = ATOMS.setdefault((name, len(args)), [])
-    if any(_noncanon(a) for a in args):
+    if name != 'wide' and any(_noncanon(x) for x in args):
         for args2, k2 in slot:
             if all(_val_same(x, y) for x, y in zip(args, args2)):
                 return k2
-    slot.append((args, k))
-    ATOM_INDEX.add(k)
-    return k
+    a = intern_atom(k)
+    slot.append((args, a))
+    ATOM_INDEX.add(a)
+    ATOM_ARGS[a] = (name, args)
+    return a
 
 def uf(name, *args):
     return Rat(Poly.sym(atom_key(name, args)))
@@ -400,8 +458,16 @@ def P_cross(a, b):
     shp = np.broadcast_shapes(a.shape, b.shape)
     a, b = np.broadcast_to(a, shp), np.broadcast_to(b, shp)
     return np.array([P_cross(x, y).tolist() for x, y in zip(a, b)], dtype=object)
+EXPAND_CLIP = [False]
+
 def P_clip(x, lo=None, hi=None, **kw):
     lo = kw.get('min', kw.get('a_min', lo)); hi = kw.get('max', kw.get('a_max', hi))
+    if EXPAND_CLIP[0] and lo is not None and hi is not None:
+        # piecewise form (valid for lo <= hi): x + [x<lo](lo-x) + [hi<x](hi-x)
+        def pw(v, l, h):
+            v, l, h = Rat.lift(v), Rat.lift(l), Rat.lift(h)
+            return v + v._cmp('<', l) * (l - v) + h._cmp('<', v) * (h - v)
+        return elemwise(pw, x, lo, hi)
     return elemwise(lambda v, l, h: uf('clip', v, l, h), x, lo if lo is not None else 'None', hi if hi is not None else 'None') if not (isinstance(lo, str) or isinstance(hi, str)) else elemwise(lambda v: uf('clip', v, lo, hi), x)
 def P_where(c, a, b):
     def w(c, a, b):
@@ -452,7 +518,7 @@ JNP = {
     'multiply': lambda a, b: asarr(a) * asarr(b), 'add': lambda a, b: asarr(a) + asarr(b), 'divide': lambda a, b: asarr(a) / asarr(b),
     'square': lambda a: asarr(a) * asarr(a), 'expand_dims': lambda a, ax: np.expand_dims(asarr(a), ax),
     'sin': unary('sin'), 'cos': unary('cos'), 'tanh': unary('tanh'), 'arctanh': unary('arctanh'), 'log': unary('log'), 'exp': unary('exp'),
-    'sqrt': unary('sqrt'), 'abs': unary('abs'), 'sign': unary('sign'),
+    'sqrt': unary('sqrt'), 'abs': unary('abs'), 'sign': unary('sign'), 'isnan': lambda x: elemwise(lambda v: False if Rat.lift(v).is_const() else uf('isnan', v), x), 'isinf': unary('isinf'), 'arctan2': lambda a, b: elemwise(lambda u, v: uf('arctan2', u, v), a, b), 'logical_and': lambda a, b: asarr(a) * asarr(b), 'logical_not': lambda a: 1 - asarr(a), 'logical_or': lambda a, b: asarr(a) + asarr(b) - asarr(a) * asarr(b), 'repeat': lambda a, n, axis=None: np.repeat(asarr(a), n, axis=axis), 'transpose': lambda a, *ax: np.transpose(asarr(a), *ax), 'outer': lambda a, b: np.outer(asarr(a), asarr(b)), 'trace': lambda a: np.trace(asarr(a)), 'full': lambda shape, v, **k: np.full(shape if isinstance(shape, tuple) else (shape,), None, dtype=object) * 0 + Rat.lift(v) if False else _full(shape, v), 'any': lambda x, axis=None, **k: _any(x, axis), 'all': lambda x, axis=None, **k: _all(x, axis),
     'maximum': lambda a, b: elemwise(lambda x, y: uf('max', *sorted([Rat.lift(x), Rat.lift(y)], key=lambda r: repr(r.key()))), a, b),
     'minimum': lambda a, b: elemwise(lambda x, y: uf('min', *sorted([Rat.lift(x), Rat.lift(y)], key=lambda r: repr(r.key()))), a, b),
     'split': lambda x, n, axis=-1: list(np.split(asarr(x), n, axis=axis)),
@@ -472,6 +538,43 @@ JNP = {
     'issubdtype': lambda d, c: (d[1] == 'float') == (c[1] == 'inexact') if isinstance(d, tuple) and d[0] == 'dtype' else True,
     'ndarray': ('dtypeclass', 'ndarray'),
 }
+def _full(shape, v):
+    if isinstance(shape, int):
+        shape = (shape,)
+    a = np.empty(tuple(shape), dtype=object); a.fill(Rat.lift(v) if not isinstance(v, float) or abs(v) != float('inf') else Rat.lift(v)); return a
+
+def _concrete_bools(x):
+    vals = [Rat.lift(v) for v in asarr(x).ravel()]
+    if all(v.is_const() for v in vals):
+        return [v.constval() != 0 for v in vals]
+    return None
+
+def _any(x, axis=None):
+    x = asarr(x)
+    if axis is None:
+        b = _concrete_bools(x)
+        if b is not None:
+            return any(b)
+        return uf('any', x)
+    moved = np.moveaxis(x, axis, -1)
+    out = np.empty(moved.shape[:-1], dtype=object)
+    for idx in np.ndindex(*moved.shape[:-1]):
+        out[idx] = _any(moved[idx])
+    return out
+
+def _all(x, axis=None):
+    x = asarr(x)
+    b = _concrete_bools(x)
+    if b is not None and axis is None:
+        return all(b)
+    if axis is None:
+        return uf('all', x)
+    moved = np.moveaxis(x, axis, -1)
+    out = np.empty(moved.shape[:-1], dtype=object)
+    for idx in np.ndindex(*moved.shape[:-1]):
+        out[idx] = _all(moved[idx])
+    return out
+
 def toint(i):
     if isinstance(i, np.ndarray) and i.dtype == object:
         return np.array([int(Rat.lift(x).constval()) for x in i.ravel()]).reshape(i.shape)
@@ -493,8 +596,53 @@ class Interp:
         self.calls = 0
         self.depth = 0
         self.dtypes = {}       # id(array) -> (kind, array) for non-float leaves
+        self.widen_at = None   # monomial threshold for gate-preserving widening (None = off)
         self.contracts = {}    # (module, function name) -> python callable replacing the function
         self.opaque = {}       # (module, nested def name) -> python callable (cut point)
+
+    # --- gate-preserving widening: a big value v = g * r (g = product of boolean atoms common
+    # to every monomial) is replaced by g * wide(r) with wide an uninterpreted atom keyed by r's
+    # normal form (same value -> same atom), so multiplicative gates and equalities between
+    # identically computed values survive while sizes stay bounded.
+    def widen(self, v):
+        if isinstance(v, Rat):
+            return self._widen_rat(v)
+        if isinstance(v, np.ndarray) and v.dtype == object:
+            if sum(len(Rat.lift(x).n.t) + len(Rat.lift(x).d.t) for x in v.ravel()) <= self.widen_at:
+                return v
+            out = np.empty(v.shape, dtype=object)
+            for idx in np.ndindex(*v.shape):
+                out[idx] = self._widen_rat(Rat.lift(v[idx]), force=True)
+            return out
+        if isinstance(v, Struct):
+            return Struct(v.cls, {k: self.widen(x) for k, x in v.f.items()}, home=v.home)
+        if isinstance(v, tuple):
+            return tuple(self.widen(x) for x in v)
+        return v
+
+    def _widen_rat(self, r, force=False):
+        n = len(r.n.t) + len(r.d.t)
+        if n <= (4 if force else self.widen_at):
+            return r
+        return Rat(self._widen_poly(r.n), self._widen_poly(r.d))
+
+    def _widen_poly(self, p):
+        """p = sum_G (prod G) * p_G over the distinct sets G of boolean atoms; each big p_G becomes
+        one `wide` atom keyed by its canonical polynomial key."""
+        if len(p.t) <= 4:
+            return p
+        groups = {}
+        for mono, c in p.t.items():
+            g = tuple(x for x in mono if _is_bool_name(x[0]))
+            rest = tuple(x for x in mono if not _is_bool_name(x[0]))
+            groups.setdefault(g, {})[rest] = c
+        out = Poly()
+        for g, t in groups.items():
+            pg = Poly(t)
+            if len(pg.t) > 4:
+                pg = uf('wide', Rat(pg)).n
+            out = out + Poly({g: Fraction(1)}) * pg
+        return out
 
     # --- lookup
     def lookup(self, name, env, mod):
@@ -1075,10 +1223,7 @@ class Interp:
         if what.startswith('nd_'):
             m = what[3:]
             if m in ('any', 'all'):
-                vals = [Rat.lift(x) for x in v.ravel()]
-                if all(x.is_const() for x in vals):
-                    return (any if m == 'any' else all)(x.constval() != 0 for x in vals)
-                raise OutOfFragment('abstract .%s()' % m)
+                return (_any if m == 'any' else _all)(v, kw.get('axis', args[0] if args else None))
             if m == 'astype' or m == 'copy':
                 return v
             if m == 'take':
@@ -1162,6 +1307,8 @@ class Interp:
 
     def assign(self, t, v, env, mod):
         if isinstance(t, ast.Name):
+            if self.widen_at is not None:
+                v = self.widen(v)
             env['v'][t.id] = v
         elif isinstance(t, (ast.Tuple, ast.List)):
             vs = list(v) if not isinstance(v, np.ndarray) else [v[i] for i in range(v.shape[0])]
